@@ -97,6 +97,8 @@ def worker_cmd(flavour, binp, args):
 
 def worker_env(flavour):
     e = dict(ENV)
+    # the corpus always comes from /verif itself, also when the harness is a scratch copy (selftest)
+    e.setdefault("VERIF_CORPUS", os.path.join(VERIF, "corpus", "diff_all.bin"))
     if flavour == "asan":
         e["ASAN_OPTIONS"] = "halt_on_error=1:abort_on_error=1:detect_leaks=0:symbolize=1"
         e["ASAN_SYMBOLIZER_PATH"] = shutil.which("llvm-symbolizer") or shutil.which("llvm-symbolizer-14") or ""
